@@ -18,9 +18,9 @@ import (
 	core_v1 "k8s.io/api/core/v1"
 	meta_v1 "k8s.io/apimachinery/pkg/apis/meta/v1"
 	"k8s.io/apimachinery/pkg/runtime"
+	utilruntime "k8s.io/apimachinery/pkg/util/runtime"
 	"k8s.io/apimachinery/pkg/watch"
 	"k8s.io/client-go/kubernetes/fake"
-	utilruntime "k8s.io/apimachinery/pkg/util/runtime"
 	k8stesting "k8s.io/client-go/testing"
 
 	"github.com/atlassian/gostatsd"
@@ -324,7 +324,18 @@ func (c13) Run(e *Env) {
 	for step := 0; step < nSteps; step++ {
 		e.Settle()
 		names := sortedPods()
-		e.State("pods=%d", len(names))
+		nElig, nHeld := 0, 0
+		for _, n := range names {
+			if pods[n].indexable() {
+				nElig++
+			}
+		}
+		for _, ip := range ips {
+			if _, ok := everHeld[ip]; ok {
+				nHeld++
+			}
+		}
+		e.State("pods=%d eligible=%d ips-ever-held=%d link-cut=%v", len(names), nElig, nHeld, observed != nil)
 		canAdd := 0
 		if len(names) < 4 {
 			canAdd = 3
